@@ -59,6 +59,10 @@ type kvElection struct {
 
 	wg sync.WaitGroup
 
+	// stopsWaiting counts the Stop/StopWithContext calls that have released
+	// the mutex and still wait on wg (guarded by mu).
+	stopsWaiting int
+
 	ctx    context.Context
 	cancel context.CancelFunc
 	// termCancel cancels the context the promotion callback of the current
@@ -204,6 +208,13 @@ func (e *kvElection) Start(ctx context.Context) error {
 	// the loops but not the term: the claim still stands. Starting over it
 	// would report CANDIDATE and leadership at once; Stop ends it properly.
 	if e.isLeader.Load() {
+		return ErrAlreadyStarted
+	}
+
+	// A stop that has released the mutex still waits for the goroutines of
+	// the run it ended; a new run would add to the wait group concurrently
+	// with that wait. The previous run is over once the stop is.
+	if e.stopsWaiting > 0 {
 		return ErrAlreadyStarted
 	}
 
@@ -661,6 +672,7 @@ func (e *kvElection) Stop() error {
 		e.disconnectHandler.stop()
 	}
 
+	e.stopsWaiting++
 	e.mu.Unlock()
 
 	log := e.getLogger()
@@ -685,9 +697,10 @@ func (e *kvElection) Stop() error {
 	case <-time.After(5 * time.Second):
 	}
 
-	e.mu.RLock()
+	e.mu.Lock()
+	e.stopsWaiting--
 	onDemote := e.onDemote
-	e.mu.RUnlock()
+	e.mu.Unlock()
 
 	if wasLeader && onDemote != nil {
 		log.Info("leader_demoted",
@@ -739,6 +752,7 @@ func (e *kvElection) StopWithContext(ctx context.Context, opts StopOptions) erro
 		e.disconnectHandler.stop()
 	}
 
+	e.stopsWaiting++
 	e.mu.Unlock()
 
 	if e.connectionMonitor != nil {
@@ -764,6 +778,7 @@ func (e *kvElection) StopWithContext(ctx context.Context, opts StopOptions) erro
 	select {
 	case <-done:
 	case <-time.After(timeout):
+		e.stopWaitOver()
 		log := e.getLogger()
 		log.Warn("shutdown_timeout",
 			append(e.logWithContext(ctx),
@@ -772,6 +787,7 @@ func (e *kvElection) StopWithContext(ctx context.Context, opts StopOptions) erro
 		)
 		return fmt.Errorf("shutdown timeout exceeded: %v", timeout)
 	case <-ctx.Done():
+		e.stopWaitOver()
 		log := e.getLogger()
 		log.Warn("shutdown_cancelled",
 			append(e.logWithContext(ctx),
@@ -784,6 +800,7 @@ func (e *kvElection) StopWithContext(ctx context.Context, opts StopOptions) erro
 	// A Start that overlapped the wait above has installed a fresh context and
 	// left STOPPED; only the stopped election's context is cleared.
 	e.mu.Lock()
+	e.stopsWaiting--
 	if s, _ := e.state.Load().(string); s == StateStopped {
 		e.ctx = nil
 	}
@@ -866,6 +883,13 @@ func (e *kvElection) StopWithContext(ctx context.Context, opts StopOptions) erro
 	}
 
 	return nil
+}
+
+// stopWaitOver ends the wait of a stop call that gave up on it.
+func (e *kvElection) stopWaitOver() {
+	e.mu.Lock()
+	e.stopsWaiting--
+	e.mu.Unlock()
 }
 
 func (e *kvElection) Status() ElectionStatus {
